@@ -132,7 +132,7 @@ pub trait Check: Sync {
     }
     /// per-case wall-clock watchdog (seconds)
     fn case_cap_s(&self, _tier: Tier) -> u64 {
-        120
+        40
     }
     /// does the property promise termination (a confirmed hang is then a violation)?
     fn hang_is_violation(&self) -> bool {
@@ -566,18 +566,26 @@ pub fn driver_main(check: &dyn Check, tier: Tier, seed: u64, replay_idx: Option<
     let mut hang_violations: Vec<(u64, String)> = vec![];
     suspects.sort();
     suspects.dedup_by_key(|x| x.0);
+    let mut reruns = 0;
     for (idx, why) in &suspects {
         if agg.violations.iter().any(|(i, _)| i == idx) {
             continue;
         }
-        match run_alone(id, tier, seed, *idx, cap * 10) {
+        reruns += 1;
+        if reruns > 6 {
+            // bounded effort: the first six suspects decide; the rest are recorded as inconclusive
+            agg.inconclusive_n += 1;
+            agg.inconclusive.push(format!("case {idx}: suspect ({why}) not re-run in isolation (more than 6 suspects in this run)"));
+            continue;
+        }
+        match run_alone(id, tier, seed, *idx, cap * 5) {
             Ok(v) => {
                 agg.absorb(&v);
                 *agg.counters.entry("suspects_cleared_in_isolation".into()).or_insert(0) += 1;
             }
             Err("timeout") => {
                 if check.hang_is_violation() {
-                    hang_violations.push((*idx, format!("case {idx} did not return within {}s when run alone (first seen as {why})", cap.as_secs() * 10)));
+                    hang_violations.push((*idx, format!("case {idx} did not return within {}s when run alone (first seen as {why})", cap.as_secs() * 5)));
                 } else {
                     agg.inconclusive_n += 1;
                     agg.inconclusive.push(format!("case {idx}: no result within the isolated cap (first seen as {why})"));
